@@ -281,6 +281,18 @@ def preserve_cases():
         out.append(("exit", "trap '%s; echo \"@exit\"' EXIT\ne a %d\nexit\n" % (h.replace("'", "'\\''"), s)))
         out.append(("exit-end", "trap '%s' EXIT\ne a %d\n" % (h.replace("'", "'\\''"), s)))
         out.append(("debug", "f() { return %d; }\ntrap '%s' DEBUG\nf\necho \"@? $?\"\ntrap - DEBUG\n" % (s, h.replace("'", "'\\''"))))
+    # handlers that change the trap table while they run: a handler that removes or replaces its own entry is gone / replaced
+    # afterwards (compared with bash through the markers; the listing is reduced to a count of lines)
+    out += [
+        ("self", "trap 'echo \"@h $?\"; trap - ERR' ERR\ne a 1\necho \"@? $?\"\ne b 5\necho \"@? $?\"\ntrap -p ERR | wc -l | sed 's/^ */@n /'\n"),
+        ("self", "n=0\ntrap 'n=$((n+1)); echo \"@h $n\"; if [ $n -ge 2 ]; then trap - ERR; fi' ERR\ne a 1\ne b 3\ne c 1\ne d 1\necho \"@? $?\"\n"),
+        ("self", "trap 'echo \"@h1 $?\"; trap '\\''echo \"@h2 $?\"'\\'' ERR' ERR\ne a 1\ne b 3\ne c 0\necho \"@? $?\"\n"),
+        ("self", "set -E\ntrap 'echo \"@h $?\"; trap - ERR' ERR\nf() { e a 1; echo \"@f $?\"; }\nf\ne b 1\necho \"@? $?\"\n"),
+        ("self", "trap 'trap - DEBUG; echo \"@once\"' DEBUG\ne a 0\ne b 0\necho \"@? $?\"\n"),
+        ("self", "trap 'echo \"@x $?\"; trap -p EXIT | wc -l | sed \"s/^ */@n /\"' EXIT\n( exit 3 )\n"),
+        ("self", "trap 'echo \"@x1 $?\"; trap '\\''echo \"@x2\"'\\'' EXIT' EXIT\ne a 2\nexit 4\n"),
+        ("self", "trap 'echo \"@u $?\"; trap - USR1' USR1\nkill -USR1 $$\ne a 0\nkill -USR1 $$ 2>/dev/null; echo \"@alive\"\n"),
+    ]
     return out
 
 
